@@ -193,6 +193,75 @@ pub fn eval(c: &Case) -> Eval {
         .class(format!("oracle-states<=10^{}", (o.states.max(1) as f64).log10().ceil() as u32)))
 }
 
+// ------------------------------------------------------------------------------------------------------------
+// very long runs of one element (occurrence numbers beyond 2^16), l = 1, closed-form oracle
+
+#[derive(Clone, Debug, Serialize, Deserialize)]
+pub struct RunsCase {
+    pub m: u32,
+    pub wy: bool,
+    /// per symbol: number of occurrences in the first and in the second sequence (runs, in symbol order)
+    pub counts: Vec<(u32, u32)>,
+    pub trials: u64,
+    pub seed: u64,
+}
+
+/// l = 1: the lowest ranked pair of the union decides. If it belongs to both sequences they collide; if it belongs only to
+/// the longer run of element e, the other sequence's lowest pair is uniform over its own pairs and must also be e.
+fn runs_probability(counts: &[(u32, u32)]) -> f64 {
+    let u: f64 = counts.iter().map(|c| c.0.max(c.1) as f64).sum();
+    let (n1, n2): (f64, f64) = (counts.iter().map(|c| c.0 as f64).sum(), counts.iter().map(|c| c.1 as f64).sum());
+    let mut p = 0.0;
+    for (c1, c2) in counts {
+        let (c1, c2) = (*c1 as f64, *c2 as f64);
+        p += c1.min(c2) / u;
+        if c1 > c2 {
+            p += (c1 - c2) / u * (c2 / n2);
+        } else if c2 > c1 {
+            p += (c2 - c1) / u * (c1 / n1);
+        }
+    }
+    p
+}
+
+/// One element repeated n times, l = 1: the ranking of the n (element, occurrence) pairs is uniform, so the occurrence selected
+/// at a position is uniform on 0..n. The selected index of position 0 is collected over many relabelled trials and
+/// compared with the uniform law (DKW). Occurrence numbers that alias (e.g. modulo 2^16) concentrate the selection.
+fn runs_indices<H: Hasher + Default>(c: &RunsCase, seed: u64, trials: u64) -> Vec<f64> {
+    let mut rng = SmRng::new(seed);
+    let mut h = ProbOrdMinHash2::<H>::new(c.m, 1);
+    let n = c.counts[0].0 as usize;
+    let mut out = Vec::with_capacity(trials as usize);
+    let mut s1 = vec![0u64; n];
+    for _ in 0..trials {
+        let lab = rng.next_u64();
+        s1.iter_mut().for_each(|x| *x = lab);
+        let _ = h.hash_set(&s1);
+        let (idx, _) = h.verif_selected();
+        out.push((idx[0] as f64 + 0.5) / n as f64);
+    }
+    out
+}
+
+pub fn eval_runs(c: &RunsCase) -> Eval {
+    ensure!(!c.counts.is_empty() && c.counts[0].0 >= 2, "generator error");
+    let f = |seed: u64, t: u64| if c.wy { runs_indices::<WyHash>(c, seed, t) } else { runs_indices::<FnvHasher>(c, seed, t) };
+    let mut xs = f(c.seed, c.trials);
+    let d1 = crate::stat::ks_distance(&mut xs, |x| x.clamp(0.0, 1.0));
+    let tol = |t: u64| crate::stat::dkw_tol(L, t as f64);
+    if d1 > tol(c.trials) {
+        let mut ys = f(splitmix64(c.seed ^ 0xC0FFEE), 4 * c.trials);
+        let d2 = crate::stat::ks_distance(&mut ys, |x| x.clamp(0.0, 1.0));
+        ensure!(d2 <= tol(4 * c.trials), "ProbOrdMinHash2 m={} l=1 on one element repeated {} times: the occurrence selected at position 0 is not uniform over the {} occurrences: Kolmogorov distance {:.3} (T = {}) and {:.3} on an independent seed (T = {}), DKW bounds {:.3} / {:.3}", c.m, c.counts[0].0, c.counts[0].0, d1, c.trials, d2, 4 * c.trials, tol(c.trials), tol(4 * c.trials));
+    }
+    Ok(Report::new(true).trials(c.trials).resolution(tol(c.trials)).class_if(c.counts[0].0 > 65536, "an-element-occurs>65536-times"))
+}
+
+fn runs_strategy(trials: u64) -> impl Strategy<Value = RunsCase> {
+    let n = prop_oneof![(0u32..40).prop_map(|d| 131_072 + d), (0u32..40).prop_map(|d| 131_072 - d), 70_000u32..200_000];
+    (prop::sample::select(vec![1u32, 2, 8]), any::<bool>(), n, any::<u64>()).prop_map(move |(m, wy, n, seed)| RunsCase { m, wy, counts: vec![(n, 0)], trials, seed })
+}
+
 pub fn run(ctx: &Ctx) {
     ctx.set_rule("proptest generates (m in {1,2,4,7,32,128}, l, hasher FNV/WyHash, a base sequence over 1..8 symbols (random or built from runs) and a second sequence derived from it: identical | rotated | one substitution | deletion | insertion | disjoint alphabet | common prefix | independent | reversed, a trial seed). \
         Per trial the symbols are relabelled with fresh random u64 labels and one instance hashes both sequences; statistic = fraction of equal positions. Oracle: exact collision probability of the order-min-hash definition by memoised recursion over the next lowest-ranked relevant (element, occurrence) pair \
@@ -201,10 +270,18 @@ pub fn run(ctx: &Ctx) {
     super::run_fixed_tier(ctx, replay);
     let (cases, max_len, max_l, trials) = ctx.tier.pick((192, 14, 5, 12_000), (2400, 30, 12, 40_000));
     ctx.drive("collision", cases, 16, 24, || strategy(max_len, max_l, trials), eval);
+    // very long runs of one element: occurrence numbers beyond 2^16; the selected occurrence must be uniform
+    let (cases, trials) = ctx.tier.pick((6, 260), (64, 1000));
+    ctx.drive("long-runs", cases, 6, 2, move || runs_strategy(trials), eval_runs);
 }
 
 pub fn replay(ctx: &Ctx, sub: &str, case: &Value) -> Result<(), String> {
-    let c: Case = parse_case(case)?;
-    ctx.run_fixed(sub, &c, eval);
+    if sub == "long-runs" {
+        let c: RunsCase = parse_case(case)?;
+        ctx.run_fixed(sub, &c, eval_runs);
+    } else {
+        let c: Case = parse_case(case)?;
+        ctx.run_fixed(sub, &c, eval);
+    }
     Ok(())
 }
